@@ -34,4 +34,4 @@ def streams(ctx):
     s2 = make_stream("srv", cases, c04_pred,
                      "%d generated fault-free scripts (W in 1..4); dispatch log compared and checked for round-robin / no dispatch to a full worker" % n,
                      lambda c, m: "D" in m)
-    return [s1, s2, bld_stream(ctx, ("C04", "C02"), ["", "c", "k", "ck", "k"], 72, 1500, ws=(2, 3, 4), ls=(2, 3, 2))]
+    return [s1, s2, bld_stream(ctx, ("C04", "C02"), ["", "c", "k", "ck", "k", "b", "cb"], 88, 1500, ws=(2, 3, 4), ls=(2, 3, 2))]
